@@ -1,4 +1,36 @@
-From Coq Require Import List NArith ZArith Bool.
+(* R_C10: HttpStreamSession BEFORE the repair fixes/C10-http-session-refuses-use-after-cancel.diff (hstep false):
+   cancel() did not make the session refuse further use.  Both witnesses are replayed against the real code by
+   props/C10.py (WITNESSES) on every run. *)
+From Coq Require Import List NArith ZArith Bool String.
 From VGI Require Import Corr M_Wire M_WireLife.
 Import ListNotations.
 Open Scope N_scope.
+
+Definition rb (t : N) : batch := {| rows := 1; tag := t; meta := [] |}.
+Definition rs (t : N) : step := {| slogs := []; emit := Some (rb t); fin := false; sraise := None |}.
+Definition rsp (n : list N) : stream_prog := {| ilogs := []; ires := InitOk; hdr := Some 0%Z; steps := map rs n |}.
+Definition rcfg : httpcfg := {| cap := None; fsize := fun _ => 100; base := 100 |}.
+
+(* cancel before the first batch, then iterate: the batch pre-loaded by /init is delivered although on_cancel has run *)
+Lemma C10_http_iterate_after_cancel_refuted :
+  life_http false rcfg (rsp [0; 1]) false true CbRecord [OCancel; OIter None]
+  = ([], [CProcess 0], [([], [CCancel 1]); ([EBatch (rb 0); EDone], [])])
+  /\ exists sg, nth_error (snd (life_http false rcfg (rsp [0; 1]) false true CbRecord [OCancel; OIter None])) 1 = Some sg /\ ~ refusal (OIter None) sg.
+Proof.
+  split; [vm_compute; reflexivity|]. eexists. split; [vm_compute; reflexivity|].
+  intros [_ [H _]]. vm_compute in H. discriminate H.
+Qed.
+
+(* an iterator suspended inside a continuation response goes on after cancel: it requests the next turn, so the state
+   is processed again (CProcess 2 after CCancel) and its batch delivered *)
+Lemma C10_http_suspended_iterator_refuted :
+  life_http false rcfg (rsp [0; 1; 2]) false true CbRecord [OIter (Some 2%nat); OCancel; OResume]
+  = ([], [CProcess 0], [([EBatch (rb 0); EBatch (rb 1)], [CProcess 1]); ([], [CCancel 1]); ([EBatch (rb 2)], [CProcess 2])]).
+Proof. vm_compute. reflexivity. Qed.
+
+(* the repaired client on the same scripts *)
+Lemma C10_http_repaired_on_witnesses :
+  snd (life_http true rcfg (rsp [0; 1]) false true CbRecord [OCancel; OIter None]) = [([], [CCancel 1]); ([refused], [])]
+  /\ snd (life_http true rcfg (rsp [0; 1; 2]) false true CbRecord [OIter (Some 2%nat); OCancel; OResume])
+     = [([EBatch (rb 0); EBatch (rb 1)], [CProcess 1]); ([], [CCancel 1]); ([refused], [])].
+Proof. vm_compute. split; reflexivity. Qed.
